@@ -19,10 +19,14 @@ use arrayvec::ArrayVec;
 // ---- verbatim from crates/sierradb/src/lib.rs and bucket.rs
 """ + consts + "\n" + types + """
 // ---- verbatim from crates/sierradb-topology/src/lib.rs
-""" + fn + "\n\n" + gen.harness_text("c24/harness.rs")
+""" + fn + "\n\n" + gen.harness_text("c24/harness.rs").replace("@SUB0@", "\n".join(f"#[kani::proof]\n#[kani::unwind(14)]\nfn c24_prefix_r{lo}_{hi}() {{ prefix_range({lo}, {hi}); }}" for lo, hi in SUB0))
     gen.write_crate(d, "c24-distribute", 'arrayvec = "0.7"', lib)
     rewrites.append("slice: fn distribute_partition (sierradb-topology/src/lib.rs) + MAX_REPLICATION_FACTOR, PartitionHash, PartitionId (sierradb) verbatim; real arrayvec crate")
     return {"rewrites": rewrites, "harness_file": str(d / "src/lib.rs")}
+
+
+# the prefix property for n < 8192 is split further (the one-slice query did not finish in 3000 s)
+SUB0 = [(0, 255), (256, 1023), (1024, 2047), (2048, 4095), (4096, 8191)]
 
 
 def spec(tier, seed):
@@ -33,16 +37,19 @@ def spec(tier, seed):
         hs.append(Harness(f"c24_shape_n{k}", obligation=f"for all hash:u16, rf:u8, n in [{lo},{hi}]: len==min(rf,n,12), all < n, pairwise distinct, first == hash % n, empty iff n==0||rf==0, no panic",
                           encodes=enc, bounds="whole input space of this slice; unwind 14 (MAX_REPLICATION_FACTOR=12)", timeout_s=1500,
                           tiers=("thorough",) if k == 0 else ("quick", "thorough")))
-    for k in range(8):
+    for k in range(1, 8):
         lo, hi = k << 13, ((k + 1) << 13) - 1
         hs.append(Harness(f"c24_prefix_n{k}", obligation=f"for all hash, rf1<=rf2, n in [{lo},{hi}]: f(h,n,rf1) is a prefix of f(h,n,rf2)",
                           encodes=enc, bounds="whole input space of this slice; unwind 14", timeout_s=3000, tiers=("thorough",)))
+    for (lo, hi) in SUB0:
+        hs.append(Harness(f"c24_prefix_r{lo}_{hi}", obligation=f"for all hash, rf1<=rf2, n in [{lo},{hi}]: f(h,n,rf1) is a prefix of f(h,n,rf2)",
+                          encodes=enc, bounds="whole input space of this slice; unwind 14", timeout_s=3000, tiers=("thorough",)))
     hs += [
         Harness("c24_small_n_all", obligation="n <= 64, all hashes and rf: all shape clauses", encodes=enc, bounds="n<=64; unwind 14", timeout_s=600),
-        Harness("c24_determinism", obligation="two calls with equal arguments return equal results", encodes=enc, bounds="whole input space; unwind 14", timeout_s=900, tiers=("thorough",)),
         Harness("c24_vacuity_witness", expect_fail=True, obligation="twin: a 12-element result is reachable", timeout_s=600),
     ]
     return PropSpec("C24", [Unit("c24", generate, hs, jobs=4, workers=3)],
                     assumptions=["dev-profile semantics (overflow checks on) — what Kani models; release wrapping behaviour is only observed by native replay"],
-                    outside_claim=["callers of distribute_partition (cluster routing)"],
+                    outside_claim=["callers of distribute_partition (cluster routing)",
+                                   "determinism is not a separate query: the function is pure (no statics, no I/O, no interior state), a two-call equivalence query did not finish in 900 s and was removed"],
                     trusted_base=["kani-compiler 0.68 / CBMC 6.11 / cadical", "the slicer"])
